@@ -524,7 +524,11 @@ func (e *MetaExecutor) dial(nodeID uint64) (net.Conn, error) {
 		if err != nil {
 			return nil, err
 		}
-		e.pool.setPool(nodeID, p)
+		// Another caller may have created the pool meanwhile: keep one, or the other
+		// pool with its connection and pruner is orphaned and the stream limit is void.
+		if _, loaded := e.pool.setPoolIfAbsent(nodeID, p); loaded {
+			p.Close()
+		}
 	}
 	return e.pool.conn(nodeID)
 }
